@@ -40,9 +40,21 @@ def gen(tape, big=False):
     ops = []
     used_p, used_i = set(), set()
     in_run, runs = False, 0
+    reentrant = 0
     n = 3 + tape.draw("program", 24 if big else 12, "n-ops")
     for _ in range(n):
-        k = tape.weighted("program", [(10, "event"), (4, "add_prefix"), (4, "add_id"), (4, "run"), (1, "bad_rule")], "op")
+        k = tape.weighted("program", [(10, "event"), (4, "add_prefix"), (4, "add_id"), (4, "run"), (1, "bad_rule"), (1, "add_reentrant")], "op")
+        if k == "add_reentrant":
+            # a sink registered for start/stop that, the first time the router starts (or stops) it, adds one more rule
+            free = [s for s in SEGS if s not in used_p]
+            if not free or reentrant >= 2:
+                continue
+            p = free[tape.draw("program", len(free), "child-prefix")]
+            used_p.add(p)
+            reentrant += 1
+            ops.append(["add_reentrant", tape.choice("program", ("start", "stop"), "when"), p,
+                        tape.chance("program", 1, 2, "child-consume"), tape.chance("program", 2, 3, "child-startstop")])
+            continue
         if k == "bad_rule":
             ops.append(["bad_rule", tape.choice("program", ("slash-in-prefix", "unknown-policy", "wrong-keyword"), "how"),
                         tape.chance("program", 1, 2, "startstop")])
@@ -108,6 +120,21 @@ def run_one(tape, opts):
         expect[name] = []
         return s
 
+    pending_children = {}   # parent sink name -> (when, child name, prefix, consume, registered for start/stop)
+    either = {}             # child added while the router was stopping its sinks: name -> index into expect[name]
+
+    def _install_child(pname, already_started):
+        when, cname, p, consume, css = pending_children.pop(pname)
+        prefix_rules[p] = (cname, consume)
+        if css:
+            if already_started is None:
+                # added from inside stopTestRun: whether that still counts as "while a run is in progress" the
+                # statement leaves open - either nothing for this run, or start and stop, but never half of it
+                either[cname] = len(expect[cname])
+            elif already_started:
+                expect[cname].append(("startTestRun",))
+            startstop.append(cname)
+
     nev = 0
     for op in ops:
         try:
@@ -129,6 +156,25 @@ def run_one(tape, opts):
                     startstop.append(name)
                     if in_run:
                         expect[name].append(("startTestRun",))
+            elif op[0] == "add_reentrant":
+                _, when, p, consume, css = op
+                pname, cname = f"parent#{len(sinks)}", f"child:{p}"
+                parent = _Reentrant(sink(pname), when, None)
+                child = sink(cname)
+
+                def action(child=child, p=p, consume=consume, css=css):
+                    router.add_rule(child, "route_code_prefix", route_prefix=p, consume_route=consume, do_start_stop_run=css)
+
+                parent.action = action
+                # (a test id no event carries: the parent only takes part in start/stop)
+                router.add_rule(parent, "test_id", test_id=pname, do_start_stop_run=True)
+                startstop.append(pname)
+                pending_children[pname] = (when, cname, p, consume, css)
+                if in_run:
+                    expect[pname].append(("startTestRun",))
+                    if when == "start":
+                        _install_child(pname, True)
+                out.probe("reentrant-add_rule:" + when)
             elif op[0] == "bad_rule":
                 # a rule the router rejects registers nothing at all
                 name = f"rejected#{len(sinks)}"
@@ -146,13 +192,19 @@ def run_one(tape, opts):
             elif op[0] == "start":
                 router.startTestRun()
                 in_run = True
+                # (the list may grow while it is walked: a sink started here may add a rule registered
+                # for start/stop, which then belongs to this run like any other)
                 for name in startstop:
                     expect[name].append(("startTestRun",))
+                    if name in pending_children and pending_children[name][0] == "start":
+                        _install_child(name, False)
             elif op[0] == "stop":
                 router.stopTestRun()
                 in_run = False
-                for name in startstop:
+                for name in list(startstop):
                     expect[name].append(("stopTestRun",))
+                    if name in pending_children and pending_children[name][0] == "stop":
+                        _install_child(name, None)
             else:
                 _, ev, via = op
                 nev += 1
@@ -217,6 +269,9 @@ def run_one(tape, opts):
         # start/stop
         g_ss = [g[0] for g in gm if g[0] != "status"]
         w_ss = [w[0] for w in ws if w[0] != "status"]
+        if name in either and g_ss != w_ss:
+            k = sum(1 for w in ws[:either[name]] if w[0] != "status")
+            w_ss = w_ss[:k] + ["startTestRun", "stopTestRun"] + w_ss[k:]
         if g_ss != w_ss:
             registered = name in startstop
             out.violate("startstop-mismatch",
@@ -254,6 +309,30 @@ def run_one(tape, opts):
                       "ops": [[o if not isinstance(o, dict) else {k: (v.decode() if isinstance(v, bytes) else v) for k, v in o.items()} for o in op] for op in ops],
                       "deliveries": {n: sum(1 for e in world.events if e.target == n) for n in expect}}
     return out
+
+
+class _Reentrant:
+    """A sink that calls back into the router the first time the router starts (or stops) it."""
+
+    def __init__(self, inner, when, action):
+        self.inner, self.when, self.action = inner, when, action
+        self.done = False
+
+    def _maybe(self, when):
+        if self.when == when and not self.done:
+            self.done = True
+            self.action()
+
+    def startTestRun(self):
+        self.inner.startTestRun()
+        self._maybe("start")
+
+    def stopTestRun(self):
+        self.inner.stopTestRun()
+        self._maybe("stop")
+
+    def status(self, **kw):
+        self.inner.status(**kw)
 
 
 class _Q:
